@@ -237,5 +237,8 @@ def main():
                         print("   ", l.strip()[:260])
         print("%s: %d/%d checks silent" % (mode, len(props) - bad, len(props)))
     finally:
-        shutil.rmtree(tmp, ignore_errors=True)
+        if "--keep" in sys.argv:
+            print("kept", tmp)
+        else:
+            shutil.rmtree(tmp, ignore_errors=True)
 main()
